@@ -2,7 +2,7 @@
 import ast
 
 from ..astutil import catches_everything, dotted, method_call, universal
-from ..cfg import canon_test, cfg_of, norm, walk_own
+from ..cfg import canon_test, cfg_of, fact_key, norm, walk_own
 from ..consteval import fold_in
 from ..mutate import B, M
 
@@ -89,6 +89,19 @@ def check(ctx):
     rpat, rfun = cache_name_rules(ctx, 'R5')
     ends = [c for c in walk_own(rfun.node) if method_call(c, 'endswith') and norm(c.args[0]) == norm(rpat.targets[0])]
     ctx.inst('R5', fetch, 'suffix-match', len(ends) == 1, 'candidate files are matched by name suffix')
+    # every way a file name can become the chosen one goes through that one test: no second look-up with a looser pattern
+    grf_ = cfg_of(rfun)
+    pv_ = norm(rpat.targets[0])
+    loose = []
+    for n_ in grf_.nodes:
+        if n_.kind == 'stmt' and isinstance(n_.ast, ast.Assign) and isinstance(n_.ast.value, ast.Name) and n_.kind == 'stmt':
+            # name = <loop variable over the cache files>: a candidate is adopted here
+            lv_ = [l_ for l_ in grf_.nodes if l_.kind == 'for' and '_cache_files' in norm(l_.ast.iter) and norm(l_.ast.target) == n_.ast.value.id and
+                   n_.id in {b_.id for b_ in grf_.loop_body_nodes(l_)}]
+            if lv_ and fact_key('%s.endswith(%s)' % (n_.ast.value.id, pv_), True) not in grf_.fact_keys_at(n_):
+                loose.append('%s under %s' % (norm(n_.ast), sorted(k_[0] for k_ in grf_.fact_keys_at(n_))))
+    ctx.inst('R5', fetch, 'every-candidate-by-exact-name', not loose, 'a cache file is chosen only when its name ends with the 8-digit pattern of the announced CRC; '
+             'chosen otherwise: %s' % loose)
     fcb = m.func(TOC, 'TocFetcher._new_packet_cb')
     fc = [c for c in walk_own(fcb.node) if method_call(c, 'fetch') and 'cache' in norm(c.func.value)]
     ic = [c for c in walk_own(fcb.node) if method_call(c, 'insert') and 'cache' in norm(c.func.value)]
@@ -166,6 +179,16 @@ def cache_codec_rules(ctx, rule='R4'):
     ctx.inst(rule, enc, 'class-tag', ekeys.get('__class__') == '__class__.__name__' and dkeys.get('__class__') in ('<eval>', '<table>'), 'class tag written from the class name and used to construct the element')
     ctx.inst(rule, enc, 'extended-param-only', e_ext == {'extended'} and d_ext == {'extended'},
              'conditional (ParamTocElement only) keys: encoder %s decoder %s' % (sorted(e_ext), sorted(d_ext)))
+    # the decoder reads the stored record as it is: it does not fill in, drop or rewrite keys (a defaulted `extended` marks every
+    # parameter of an old-layout file as not extended, so the persistence query is never made)
+    rec = dec.params[-1]
+    edits = [norm(x)[:60] for x in ast.walk(dec.node) if
+             (isinstance(x, ast.Call) and isinstance(x.func, ast.Attribute) and norm(x.func.value) == rec and x.func.attr in ('setdefault', 'update', 'pop', 'popitem', 'clear', '__setitem__')) or
+             (isinstance(x, ast.Subscript) and isinstance(x.ctx, (ast.Store, ast.Del)) and norm(x.value) == rec)]
+    soft = [norm(x)[:60] for x in ast.walk(dec.node) if isinstance(x, ast.Call) and isinstance(x.func, ast.Attribute) and norm(x.func.value) == rec and x.func.attr == 'get'
+            and len(x.args) + len(x.keywords) >= 1]
+    ctx.inst(rule, dec, 'record-read-as-stored', not edits and not soft, 'the decoder takes every key from the stored record (a missing key makes the file unusable = a miss); '
+             'record edited / defaulted by: %s' % (edits + soft))
     # attribute inventory of the two element classes
     for path, cname in ((LOG, 'LogTocElement'), (PAR, 'ParamTocElement')):
         k = m.cls(path, cname)
